@@ -18,7 +18,7 @@ KIND_CODE = {k: i for i, k in enumerate(KINDS)}
 WAVES = ['const', 'cos', 'sin', 'rect', 'tri', 'saw']
 
 POS = [1, 2, 3, 5, 10, 20, 50, 100, 1000, 0.5, 0.25, 0.125, 4.5, 47, 330, 2.2e3, 1e-3, 4.7e-6, 1e-4, 0.1]
-FREQS = [1.0, 2.0, 8.0, 50.0, 100.0, 0.5, 314.0, 1000.0]
+FREQS = [1.0, 2.0, 8.0, 50.0, 100.0, 0.5, 314.0, 1000.0, 2 * math.pi * 50, 0.1, 0.3, 5000.0]
 PHASES = [0.0, 0.5, 1.0, -1.0, math.pi / 2, math.pi, 2.5, -0.25, 7.0]
 
 
